@@ -114,6 +114,9 @@ class Folder:
         self.stubs = {}        # dotted call text -> python callable (declared primitives, e.g. random.shuffle)
         self.method_stubs = {}  # (class name | module name, function name) -> callable(folder, self_val, args, kw)
         self.on_stmt = None    # optional hook(stmt, env, mod, ci) called before every statement
+        self.class_stubs = {}  # class name -> factory(folder, args, kw): abstract stand-in for instances of that class
+        self.external_attrs = {}   # attribute name -> callable(obj): attributes of base classes outside the package
+        self.abstract_join = None  # callable(parts) for f-strings with abstract (native) parts
         self.steps = 0
         self.max_steps = max_steps
 
@@ -195,6 +198,12 @@ class Folder:
                 for cc in self.repo.mro(obj.cls):
                     if name in cc.assigns:
                         return self._eval(cc.assigns[name], {}, cc.module, cc)
+                for cc in self.repo.mro(obj.cls):
+                    nested = cc.module.classes.get(f'{cc.name}.{name}')
+                    if nested is not None:
+                        return ClsRef(nested)
+                if name in self.external_attrs:
+                    return self.external_attrs[name](obj)
                 raise Unsupported(f'{obj.cls.name}.{name}')
             if c.method_kind(name) == 'property':
                 return self._invoke(c.module, c, fn, obj, [], {})
@@ -243,6 +252,8 @@ class Folder:
                 return ('pyfunc', getattr(_re, name))
             if name in ('IGNORECASE', 'I', 'MULTILINE', 'DOTALL'):
                 return getattr(_re, name)
+        if isinstance(obj, tuple) and len(obj) == 2 and obj[0] == 'pymodule':
+            return ('extern', f'{obj[1]}.{name}')      # opaque constant of a module outside the package
         import re as _re2
         if isinstance(obj, _re2.Match) and name in ('group', 'groups', 'start', 'end', 'span'):
             return ('strmethod', obj, name)
@@ -468,6 +479,8 @@ class Folder:
         raise Unsupported('int() of ' + type(v).__name__)
 
     def _construct(self, ci: ClassInfo, args, kw) -> Any:
+        if ci.name in self.class_stubs:
+            return self.class_stubs[ci.name](self, list(args), dict(kw))
         if ci.is_enum:
             if len(args) != 1:
                 raise Unsupported('enum call arity')
@@ -513,6 +526,8 @@ class Folder:
                 return ('func', r[1], r[2])
             if r[0] == 'module' and r[1] == 're':
                 return ('pymodule', 're')
+            if r[0] == 'module' and not r[1].startswith('bridge_env'):
+                return ('pymodule', r[1])
         if name in BUILTINS:
             return ('builtin', name)
         raise Unsupported(f'name {name}')
@@ -593,15 +608,21 @@ class Folder:
             return self._attr_or_prop(self._eval(e.value, env, mod, ci), e.attr)
         if isinstance(e, ast.JoinedStr):
             out = []
+            abstract = False
             for v in e.values:
                 if isinstance(v, ast.Constant):
                     out.append(str(v.value))
                 else:
                     val = self._eval(v.value, env, mod, ci)
-                    if v.conversion == 114:
+                    if getattr(val, '_sa_native', False) and self.abstract_join is not None:
+                        out.append(val)
+                        abstract = True
+                    elif v.conversion == 114:
                         out.append(repr(val))
                     else:
                         out.append(self._str(val))
+            if abstract:
+                return self.abstract_join(out)
             return ''.join(out)
         if isinstance(e, ast.BoolOp):
             if isinstance(e.op, ast.And):
@@ -778,6 +799,9 @@ class Folder:
                 return self._str(args[0])
             if n == 'int':
                 return self._int(args[0])
+            if n in ('len', 'list', 'tuple', 'set') and args and isinstance(args[0], ClsRef) and args[0].cls.is_enum:
+                mem = [EV(args[0].cls, k, v) for k, v in args[0].cls.enum_members().items()]
+                return len(mem) if n == 'len' else {'list': list, 'tuple': tuple, 'set': set}[n](mem)
             if n == 'len':
                 return len(args[0])
             if n == 'set':
